@@ -123,6 +123,14 @@ pub fn schema_faithful<T: Fam, S: Src>(s: &mut S) {
     assert!(!has_recursion(&schema, 0), "C12: non-recursive types never yield recursion markers");
 }
 
+/// C12 at every version the definition can be written at (ABI peers and old files use older versions): the schema
+/// reported for version v describes the bytes written at version v.
+pub fn schema_faithful_versions<T: Fam, S: Src>(s: &mut S) {
+    let v = T::sym(s);
+    let ver = s.below(T::VERSION as usize + 1) as u32;
+    schema_faithful_value(&v, ver, T::NAME);
+}
+
 /// C12 for library types (native enumeration): same statement for a value of any serializable type.
 pub fn schema_faithful_value<T: savefile::Serialize + savefile::WithSchema>(v: &T, version: u32, what: &str) {
     let schema = savefile::get_schema::<T>(version);
